@@ -1285,7 +1285,7 @@ class Checker:
             d = dict((n, v) for n, v in args if v is not None).get("d", ",")[:1]
             to = any(n == "transpose-output" for n, _ in args)
             pre = any(n == "precompute" for n, _ in args)
-            if c.get("pair"):
+            if c.get("pair", True):
                 # "--precompute changes nothing but speed": the same command line with the flag toggled
                 self.evals += 1
                 self.count("pair:" + ("precompute-first" if pre else "direct-first"))
